@@ -205,6 +205,28 @@ Theorem C13_timeout_defaults_to_interval : forall p ka ds, 0 < p ->
      ko_result out = KA_returned EPingTimeout /\ ko_end out = p + p).
 Proof. exact reconnect_timeout_defaults_to_interval. Qed.
 
+(* "if a RESPONSE does not arrive": only a PINGRESP completes a ping.  Whatever other packets the
+   reader handles meanwhile (PUBLISH of any QoS, PUBREL, acks), the ping waiter sees the history
+   without them; a peer that is mute to pings but otherwise talking is reported like a silent one *)
+Theorem C13_only_pingresp_completes_ping : forall I T pre u o post, 0 < I ->
+  (forall st es, slot_run st es = slot_run st (filter (fun e => negb (is_other e)) es)) /\
+  (Forall (fun x => peer_answers (fst x) = true) pre ->
+   wire_outcomes_talk (pre ++ (u, O, O, o) :: post) =
+     answered (repeat 0 (length pre)) ++ Never :: wire_outcomes_talk post /\
+   ko_result (keepalive I T (wire_outcomes_talk (pre ++ (u, O, O, o) :: post))) = KA_returned EPingTimeout /\
+   pings (keepalive I T (wire_outcomes_talk (pre ++ (u, O, O, o) :: post))) = S (length pre)).
+Proof.
+  intros I T pre u o post HI. split.
+  - intros st es. apply other_packets_ignored.
+  - apply only_pingresp_completes_ping. exact HI.
+Qed.
+
+(* "within the timeout": the keep-alive pings through the BaseClient, so its deadline is Timeout
+   alone; RetryClient.ResponseTimeout (meant for PUBACK/SUBACK) plays no part *)
+Theorem C13_keepalive_ignores_response_timeout : forall o rt delays,
+  rc_keepalive_cfg o rt delays = rc_keepalive_peer o delays.
+Proof. exact keepalive_ignores_response_timeout. Qed.
+
 (* time.NewTicker's panic on a non-positive interval is unreachable from the reconnecting client *)
 Theorem C13_no_panic_from_reconnect : forall I T s o, rc_keepalive I T s = Some o -> ko_result o <> KA_panic.
 Proof. exact rc_keepalive_no_panic. Qed.
@@ -241,3 +263,5 @@ Print Assumptions C13_ping_period_independent_of_delay.
 Print Assumptions C13_option_defaults.
 Print Assumptions C13_timeout_defaults_to_interval.
 Print Assumptions C13_timeout_reaction_independent_of_peer.
+Print Assumptions C13_only_pingresp_completes_ping.
+Print Assumptions C13_keepalive_ignores_response_timeout.
